@@ -781,6 +781,6 @@ func TestC02(t *testing.T) {
 	core.Rapid(r, core.Check[setCase]{Name: "history", Gen: genSetCase, Exec: execSetCase}, r.N(3000, 30000))
 	core.DFS(r, core.Check[setPermCase]{Name: "insertion-orders", Gen: genSetPerm, Exec: execSetPerm, NoJournal: true}, 0)
 	core.DFS(r, core.Check[reentrantCase]{Name: "reentrant-elements", Gen: genReentrant([]string{"Set", "SetAlgebra"}), Exec: execReentrant("C02"), NoJournal: true}, 0)
-	core.DFS(r, core.Check[hugeCase]{Name: "huge-sizes", Gen: genHuge([]string{"Set"}, r.Ns([]int{16389}, []int{16389, 66000, 70001})), Exec: execHuge("C02"), NoJournal: true, HangLimit: 900 * time.Second}, 0)
+	core.DFS(r, core.Check[hugeCase]{Name: "huge-sizes", Gen: genHuge([]string{"Set"}, r.Ns([]int{16389}, []int{16389, 80000})), Exec: execHuge("C02"), NoJournal: true, HangLimit: 900 * time.Second}, 0)
 	core.DFS(r, core.Check[longLivedCase]{Name: "long-lived-instance", Gen: genLongLived([]string{"Set"}, r.N(150000, 1200000)), Exec: execLongLived("C02"), NoJournal: true, HangLimit: 300 * time.Second}, 0)
 }
